@@ -47,17 +47,22 @@ def start_floor(prop, tier, seed):
     env = dict(os.environ)
     env['PYTHONPATH'] = REPO + os.pathsep + os.path.join(ROOT, 'native')
     env['PYTHONHASHSEED'] = env.get('PYTHONHASHSEED', '0')
+    # every floor run gets a scratch directory of its own, removed when the floor is done (killed workers leave files)
+    import tempfile
+    scratch = tempfile.mkdtemp(prefix='verif_floor_%s_' % prop)
+    env['TMPDIR'] = scratch
     errf = open(out + '.err', 'w')
     p = subprocess.Popen(['/venv/bin/python', '-u', path, '--tier', tier, '--seed', str(seed), '--out', out],
                          env=env, stdout=errf, stderr=subprocess.STDOUT, cwd=ROOT)
-    return (p, out, errf, tier)
+    return (p, out, errf, tier, scratch)
 
 
 def finish_floor(handle):
     if handle is None:
         return None, 'no floor'
-    p, out, errf, tier = handle
+    p, out, errf, tier, scratch = handle
     budget = 140 if tier == 'quick' else 1800
+    import shutil
     try:
         p.wait(timeout=budget + 120)
     except subprocess.TimeoutExpired:
@@ -65,6 +70,7 @@ def finish_floor(handle):
         return None, 'floor timed out'
     finally:
         errf.close()
+        shutil.rmtree(scratch, ignore_errors=True)
     err = open(out + '.err').read()[-800:]
     os.unlink(out + '.err')
     if not os.path.exists(out):
